@@ -18,7 +18,7 @@ import (
 var (
 	c05Clients = []string{"10.1.0.5", "10.2.0.5", "172.16.0.9", "2001:db8:1::5", "10.1.7.9"}
 	c05Options = []string{"", "10.1.3.0/24", "0.0.0.0/0", "10.2.3.0/24", "10.1.3.7/24", "172.16.5.0/24", "badfamily", "badlen", "2001:db8:1:2::/64", "::/0", "dup:10.1.3.0/24+10.2.9.0/24"}
-	c05Names   = []string{"dep.", "s0.", ecsFakeName, "odd."}
+	c05Names   = []string{"dep.", "s0.", ecsFakeName, "odd.", "depfx."}
 )
 
 type c05Case struct {
